@@ -91,6 +91,10 @@ func genCase(r *hx.Rand, big bool) *Case {
 	clearMode := !holesMode && !collideMode && r.Chance(1, 8)
 	clearKey := hx.Pick(r, []string{"toolchain", "note", "commit"})
 	clearSetFirst := r.Bool()
+	// "cfgonly" mode: a row/column projection that consists of .config only, on an input whose
+	// FIRST result has no file configuration at all (the projection has no field yet when the first
+	// key is made); later blocks bring goos:/goarch:/... lines
+	cfgOnlyMode := !holesMode && !collideMode && !clearMode && r.Chance(1, 8)
 	// "specials" mode: +Inf, -Inf and -0 among the measurements; "nan" mode: also NaN, but only
 	// in single-column runs (one file, no -col, no duplicate path): two compared cells with a NaN
 	// make go-moremath's U test loop forever (reported, see notes/C14.md)
@@ -220,9 +224,15 @@ func genCase(r *hx.Rand, big bool) *Case {
 					fmt.Fprintf(&sb, "%s:\n", clearKey)
 				}
 			}
+			if cfgOnlyMode && fi == 0 && nblocks < 2 {
+				nblocks = 2 + r.Intn(2)
+			}
 			for _, k := range cfgKeys {
 				if clearMode && k == clearKey {
 					continue
+				}
+				if cfgOnlyMode && fi == 0 && bi == 0 {
+					continue // the first result of the run has no file configuration
 				}
 				if (bi == 0 && r.Chance(1, 2)) || (bi > 0 && r.Chance(1, 4)) {
 					v := hx.Pick(r, cfgPool[k])
@@ -341,7 +351,13 @@ func genCase(r *hx.Rand, big bool) *Case {
 		c.tag("duplabel")
 	}
 	// flags
-	if clearMode {
+	if cfgOnlyMode {
+		c.tag("cfgonly")
+		c.Flags = append(c.Flags, hx.Pick(r, [][]string{{"-table", ".file", "-col", ".config"}, {"-table", ".file", "-row", ".config"},
+			{"-table", "", "-col", ".config", "-row", ".fullname"}, {"-table", ".file", "-col", ".config", "-ignore", ".fullname"},
+			{"-table", ".file", "-row", ".config", "-col", ".name"}, {"-table", "", "-row", ".config", "-ignore", ".file"},
+			{"-table", ".file", "-col", ".config@alpha"}})...)
+	} else if clearMode {
 		c.tag("cfgclear")
 		c.Flags = append(c.Flags, hx.Pick(r, [][]string{nil, {"-col", clearKey}, {"-col", clearKey, "-ignore", ".file"}, {"-row", clearKey + ",.fullname"}, {"-table", clearKey},
 			{"-table", "goos," + clearKey}, {"-col", clearKey + ",.file"}})...)
@@ -458,6 +474,11 @@ func corpusCases() []*Case {
 			c.Args[1], c.Stdin = "-", "b.txt"
 			return c
 		}(),
+		// -col / -row .config only, first result without any file configuration
+		mk([]string{"-table", ".file", "-col", ".config"}, rep("BenchmarkA 1 10 ns/op", 3)+"\ngoos: linux\ngoarch: amd64\n\n"+rep("BenchmarkA 1 12 ns/op", 3)+
+			"\ngoos: darwin\n\n"+rep("BenchmarkA 1 14 ns/op", 3)+"\ngoarch: arm64\n\n"+rep("BenchmarkA 1 16 ns/op", 3)),
+		mk([]string{"-table", ".file", "-row", ".config"}, rep("BenchmarkA 1 10 ns/op", 3)+"\ngoos: linux\n\n"+rep("BenchmarkA 1 12 ns/op", 3)+
+			"\ngoos: darwin\ngoarch: arm64\n\n"+rep("BenchmarkA 1 14 ns/op", 3)+"\ngoos: aix\n\n"+rep("BenchmarkA 1 16 ns/op", 3)+"\ngoos: zos\n\n"+rep("BenchmarkA 1 18 ns/op", 3)),
 		// exact assumption
 		mk([]string{"-col", "note"}, "Unit text-bytes assume=exact\nnote: before\n\nBenchmarkSize 1 100 text-bytes\nBenchmarkN 1 100 text-bytes\nBenchmarkN 1 101 text-bytes\n\nnote: after\n\nBenchmarkSize 1 105 text-bytes\nBenchmarkN 1 101 text-bytes\n"),
 	}
